@@ -437,8 +437,8 @@ Proof.
   rewrite (run_flat_pbc _ _ total) by lia.
   match goal with |- match ?X with _ => _ end = bind ?Y _ => assert (E4 : X = Y) end.
   { destruct (ps_bytes_read s4 <? raw_len)%N; [|reflexivity].
-    rewrite run_flat_pb. unfold pbind. rewrite run_flat_exact, rd_exact_N_eq.
-    destruct (rd_exact (N.to_nat (raw_len - ps_bytes_read s4)) bs3) as [[buf bs4]|e|x|]; cbn [bind]; try reflexivity.
+    rewrite run_flat_pb. unfold pbind. rewrite run_flat_exact, rd_exact_bounded by lia.
+    destruct (rd_exact_N (raw_len - ps_bytes_read s4) bs3) as [[buf bs4]|e|x|]; cbn [bind]; try reflexivity.
     destruct (N.eqb (raw_len - ps_bytes_read s4) (1 + game_End_size (ver s4)) &&
               N.eqb (b2n (hd x00 buf)) Event_GameEnd); reflexivity. }
   match type of E4 with ?X = ?Y => destruct Y as [[s5 bs5]|e|x|] eqn:E5 end;
